@@ -673,6 +673,11 @@ func GenerateAltVirtualHosts(hostname string, port int, proxyDomain string) []st
 	}
 
 	uniqueHostname := strings.Join(uniqueHostnameParts, ".")
+	// A wildcard directly below the shared domain ("*.local.campus.net" seen from local.campus.net) has no
+	// abbreviation either: it would be the bare "*", the domain of the catch-all virtual host.
+	if uniqueHostname == "*" {
+		return vhosts
+	}
 
 	// Add the uniqueHost.
 	vhosts = appendDomainPort(vhosts, uniqueHostname, port)
@@ -696,7 +701,10 @@ func generateAltVirtualHostsForKubernetesService(hostname string, port int, prox
 			// Invalid domain
 			return nil
 		}
-		if hostname[ns+1:ih] == before {
+		// A wildcard service name ("*.<ns>.svc.<suffix>") has no short form: a bare "*" would match every
+		// authority and collide with the catch-all virtual host ("Only a single wildcard domain is
+		// permitted"), so such a host only gets its namespace-qualified forms.
+		if hostname[ns+1:ih] == before && hostname[:ns] != "*" {
 			// Same namespace
 			if port == portNoAppendPortSuffix {
 				return []string{
